@@ -30,6 +30,9 @@ type Rule struct {
 	ReplaceBody map[string]string `json:"replace_body"` // "Recv.Method" or "Func" -> body statements
 	Text        []TextRepl        `json:"text"`
 	DropImports []string          `json:"drop_imports"`
+	// OptionalSelectors: a selector that does not occur in the file is not an error (redirections of a
+	// whole API family, e.g. every os.* file-system call, where the code may use only some of them)
+	OptionalSelectors bool `json:"optional_selectors"`
 }
 
 // Apply returns overlay contents keyed by absolute path and a description per rule.
@@ -84,7 +87,7 @@ func Apply(repo string, rules []Rule) (map[string][]byte, []string, error) {
 			}
 			sort.Strings(keys)
 			for _, k := range keys {
-				if used[k] == 0 {
+				if used[k] == 0 && !r.OptionalSelectors {
 					return nil, nil, fmt.Errorf("%s: selector %s not found", r.File, k)
 				}
 			}
